@@ -108,7 +108,10 @@ pub fn explore(ctx: &Ctx) {
             sites.push(Site::new(lat, lon, 0.0, gmt));
         }
     }
-    ctx.alphabet("part1", json!({"sites": sites.len(), "lats": lats, "zones": zs, "method": "Mwl", "rounding": "None", "dates": all.len()}));
+    for (lat, lon, gmt) in [(30.0, 0.0, 9.0), (-45.0, 120.0, -4.0), (55.0, -60.0, 6.0), (-15.0, -150.0, 2.0), (60.0, 30.0, -10.0)] {
+        sites.push(Site::new(lat, lon, 0.0, gmt));
+    }
+    ctx.alphabet("part1", json!({"far_zone_sites": 5, "sites": sites.len(), "lats": lats, "zones": zs, "method": "Mwl", "rounding": "None", "dates": all.len()}));
     let p1 = params_conv(Method::Mwl);
     par_jobs(ctx, &sites, |site, l| {
         for &d in &all {
